@@ -27,6 +27,10 @@ def _ew(f, a, b=None):
             return [_ew(f, x) for x in a]
         return f(a)
     if isinstance(a, list) and isinstance(b, list):
+        if len(a) != len(b) and len(a) == 1:
+            return [_ew(f, a[0], y) for y in b]
+        if len(a) != len(b) and len(b) == 1:
+            return [_ew(f, x, b[0]) for x in a]
         if len(a) != len(b):
             raise Unfoldable("length mismatch")
         return [_ew(f, x, y) for x, y in zip(a, b)]
@@ -186,6 +190,26 @@ class Folder:
                 raise Unfoldable("bit_length of a non-integer")
             if m in ("to", "float", "int", "long", "double", "type", "clone", "contiguous", "item", "detach"):
                 return self.fold(node.func.value)
+            if m == "unsqueeze" and len(node.args) == 1:
+                v, d = self.fold(node.func.value), self.fold(node.args[0])
+                if d == 0:
+                    return [v]
+                if isinstance(v, list) and not any(isinstance(x, list) for x in v) and d in (1, -1):
+                    return [[x] for x in v]
+                raise Unfoldable("unsqueeze")
+            if (m in ("view", "reshape") and len(node.args) == 1 and isinstance(node.args[0], ast.UnaryOp) and unparse(node.args[0]) == "-1") or (m == "flatten" and not node.args):
+                def _flat(z):
+                    return [y for x in z for y in _flat(x)] if isinstance(z, list) else [z]
+                return _flat(self.fold(node.func.value))
+            if m in ("any", "all") and (node.args or node.keywords):
+                v = self.fold(node.func.value)
+                d = self.fold(node.args[0] if node.args else node.keywords[0].value)
+                red = any if m == "any" else all
+                if isinstance(v, list) and v and isinstance(v[0], list) and d in (0, 1, -1, -2):
+                    if d in (1, -1):
+                        return [int(red(bool(t) for t in row)) for row in v]
+                    return [int(red(bool(row[j]) for row in v)) for j in range(len(v[0]))]
+                raise Unfoldable("any/all over an axis")
             if m in ("abs", "sum", "prod", "min", "max", "sign", "tanh", "sqrt", "exp", "argmin", "argmax", "amin", "amax", "all", "any", "numel", "dim", "conj", "mean"):
                 fake = ast.Call(func=ast.Attribute(value=ast.Name(id="torch", ctx=ast.Load()), attr=m, ctx=ast.Load()), args=[node.func.value] + list(node.args), keywords=list(node.keywords))
                 return self.fold(fake)
@@ -220,9 +244,27 @@ class Folder:
             if short == "fmod" and len(node.args) == 2:
                 a, b = self.fold(node.args[0]), self.fold(node.args[1])
                 return _ew(lambda x, y: math.fmod(x, y) if isinstance(x, float) or isinstance(y, float) else (x % y if x >= 0 else -((-x) % y)), a, b)
-            if short == "sum" and node.args and any(k.arg == "dim" for k in node.keywords):
+            if short in ("where", "nonzero") and len(node.args) == 1 and not node.keywords:
                 v = self.fold(node.args[0])
-                d = self.fold(next(k.value for k in node.keywords if k.arg == "dim"))
+                if isinstance(v, list) and not any(isinstance(x, list) for x in v):
+                    idx = [i for i, t in enumerate(v) if t]
+                    return [idx] if short == "where" else [[i] for i in idx]
+                raise Unfoldable(f"{short} of a matrix")
+            if short in ("argmax", "argmin") and node.args and (len(node.args) == 2 or any(k.arg == "dim" for k in node.keywords)):
+                v = self.fold(node.args[0])
+                d = self.fold(node.args[1] if len(node.args) == 2 else next(k.value for k in node.keywords if k.arg == "dim"))
+                pick = max if short == "argmax" else min
+                if isinstance(v, list) and v and isinstance(v[0], list) and d in (0, 1, -1, -2):
+                    if d in (1, -1):
+                        return [row.index(pick(row)) for row in v]
+                    cols = [[row[j] for row in v] for j in range(len(v[0]))]
+                    return [c.index(pick(c)) for c in cols]
+                if isinstance(v, list) and d in (0, -1):
+                    return v.index(pick(v))
+                raise Unfoldable("arg-reduction over an axis")
+            if short == "sum" and node.args and (any(k.arg == "dim" for k in node.keywords) or len(node.args) == 2):
+                v = self.fold(node.args[0])
+                d = self.fold(node.args[1] if len(node.args) == 2 else next(k.value for k in node.keywords if k.arg == "dim"))
                 if isinstance(v, list) and v and isinstance(v[0], list) and d in (0, 1, -1, -2):
                     if d in (1, -1):
                         return [sum(row) for row in v]
